@@ -31,5 +31,8 @@ Coarse(r) == LET ps == r.ps IN
     <<ps.mode, IF ps.open = <<>> THEN <<>> ELSE <<CurNd(ps).ns, CurNd(ps).n>>,
       IF ps.dropLF /\ ps.open # <<>> THEN (IF HasContent(ps.nodes, Cur(ps)) THEN 2 ELSE 1) ELSE 0,
       ps.ptt # <<>>, ps.afe # <<>> /\ Last(ps.afe) # 0, r.ts.st>>
-ThmExport == PrintT(ToJson([src |-> src, cx |-> cx, mode |-> Paused.ps.mode, cls |-> Coarse(Paused)]))
+\* Every string of <= MaxFrags fragments is explored (no VIEW: exploring one representative per view would make the set of views
+\* reached depend on which representative TLC happened to keep, i.e. on worker scheduling); the harness keeps the shortest
+\* string of every abstract state `abs`.
+ThmExport == PrintT(ToJson([src |-> src, cx |-> cx, mode |-> Paused.ps.mode, cls |-> Coarse(Paused), abs |-> Abs(Paused)]))
 =============================================================================
